@@ -68,10 +68,12 @@ Ev(t, i) == [t |-> t, i |-> i]
 
 -----------------------------------------------------------------------------
 (* the six Anthropic stream events (+ ping) *)
-MessageStart ==
+\* message_start may already announce the input tokens (ui); message_delta may repeat or omit them
+MessageStart(ui) ==
     /\ phase = "init"
     /\ phase' = "msg" /\ hist' = Append(hist, Ev("message_start", 0))
-    /\ UNCHANGED <<exp, strict, nextIdx, open, blocks, rep, buf, scn>>
+    /\ rep' = [rep EXCEPT !.uin = ui]
+    /\ UNCHANGED <<exp, strict, nextIdx, open, blocks, buf, scn>>
 
 \* b is the block as announced (kind, id, name, initial text)
 BlockStart(i, b) ==
@@ -127,25 +129,25 @@ End == /\ phase = "done" /\ Agree
 
 -----------------------------------------------------------------------------
 (* bounded model: every completion over a small alphabet x every stream the grammar admits *)
-MCItems  == {TextBlk("ab"), TextBlk(""), ToolBlk("c1", "f", "ab"), ToolBlk("c2", "g", "")}
+MCItems  == {TextBlk("a"), TextBlk(""), ToolBlk("c1", "f", "a"), ToolBlk("c2", "g", "")}
 MCComps  == UNION {[1..n -> MCItems] : n \in 0..MaxItems}
 MCStarts == {TextBlk(""), ToolBlk("c1", "f", ""), ToolBlk("c2", "g", "")}
 MCStops  == {"end_turn", "max_tokens", "tool_use"}
 
-Init == /\ exp \in [items : MCComps, fin : {"stop", "length", "tool_calls", "none"},
+Init == /\ exp \in [items : MCComps, fin : {"length", "tool_calls", "none"},
                     hasU : BOOLEAN, uin : {3}, uout : {5}]
         /\ strict = TRUE /\ phase = "init" /\ nextIdx = 0 /\ open = 0 /\ blocks = <<>>
         /\ rep = NoRep /\ buf = NoBuf /\ hist = <<>> /\ scn = <<>>
 
-Next == \/ MessageStart
+Next == \/ \E u \in {0, 1} : MessageStart(3 * u)
         \/ \E b \in MCStarts : BlockStart(nextIdx, b)
         \/ \E d \in Frags, k \in {"text", "tool"} : Delta(open, k, d)
         \/ BlockStop(open)
-        \/ \E s \in MCStops, ui \in {0, 3}, uo \in {0, 5} : MessageDelta(s, ui, uo)
+        \/ \E s \in MCStops, u \in {0, 1} : MessageDelta(s, 3 * u, 5 * u)
         \/ MessageStop \/ End
-        \/ \E s \in MCStops, ui \in {0, 3}, uo \in {0, 5} :
+        \/ \E s \in MCStops, u \in {0, 1} :
                \E bs \in {exp.items, <<TextBlk(AllText(exp.items))>> \o SelectSeq(exp.items, LAMBDA b : b.k = "tool")} :
-                   Buffered(bs, s, ui, uo)
+                   phase = "init" /\ Buffered(bs, s, 3 * u, 5 * u)   \* MC: buffered form first
 Spec == Init /\ [][Next]_vars
 
 MCConstraint == Len(hist) <= MaxOut
